@@ -46,6 +46,12 @@ var commonAssumptions = []string{
 
 func init() {
 	register(&Def{
+		ID: "C04", Level: "exploration", MinSigs: 50,
+		Rule:        "end-to-end: PRNG-drawn (amount 1..2^256-1, boundary-biased) x fee lists (valid, arbitrary incl. invalid recipients/bps/amount spellings, and boundary shapes: total==A, total==A-1, 6 entries, sum/ product overflow, repeated recipients) on calibrated destinations through the real core handler, plus a complete grid amount-edge x bps-edge x list length 1..6; oracle = big-integer model: verdict (must succeed / must refuse / either) and exact recipient credits + forwarded amount over the full ledger. Direct: the same generators against FeeAttributes.Validate and ComputeFeesToDistribute. non-trivial = every case with a two-sided verdict or an executed transfer; distinct = (destination, fee class, verdict, outcome, amount width) tuples",
+		Assumptions: append([]string{"lexically odd spellings of a positive fixed amount and products A*bps >= 2^256 are EITHER refused or executed exactly (the statement fixes no outcome)"}, commonAssumptions...),
+		Run:         withLab(world.Config{}, CheckC04),
+	})
+	register(&Def{
 		ID: "C14", Level: "exploration", MinSigs: 500,
 		Rule:        "systematic: every single-point mutation (delete, null, wrong type, empty, duplicate key both orders, unknown key, list append, enum/type-URL substitutions, deep nesting, long strings) at every node of every template memo (3 routes x fee shapes), whole-document and truncation cases; the same over the ICS-20 packet-data tree with hostile amounts/denoms/receivers/senders; PRNG: random bytes and bit flips, attribute extremes (nil integers, empty coins, hostile recipients); envelopes with arbitrary port/channel ids. Executed on the bare orbiter middleware (mode C) with a sample through the real core MsgRecvPacket handler (mode H). Oracle: recover() never fires, an acknowledgement is always returned, certainly-malformed payloads addressed to the orbiter yield an error acknowledgement. non-trivial = every executed input; distinct = distinct (template, site, mutation kind, outcome) tuples",
 		Assumptions: append([]string{"out-of-gas panics of the SDK gas meter are not provoked (infinite gas meter)", "a payload is marked certainly-malformed only for mutation classes whose result cannot be a well-formed payload (see certainMalformed); other mutations are held to no-panic only"}, commonAssumptions...),
